@@ -388,6 +388,18 @@ class Channel(object):
         if not self.is_open:
             raise ChannelWrongStateError("Channel is closed.")
 
+    def _confirm(self, callback, frame):
+        """Hand the broker's confirmation (DeclareOk, BindOk, ConsumeOk, ...) to the client.  Normally at once; while the owning
+        connection is marked `defer_confirms` (an instance that is still starting up, slow-start scenarios) the confirmation
+        travels like any other frame: it becomes a pending loop callback, so deliveries on queues that already have a consumer
+        can be handled before it."""
+        if not callback:
+            return
+        if getattr(self.connection, "defer_confirms", False):
+            self.connection.pending_calls.append((lambda: callback(frame), self.broker.step))
+        else:
+            callback(frame)
+
     def add_on_close_callback(self, callback):
         self._on_close.append(callback)
 
@@ -422,8 +434,7 @@ class Channel(object):
                                          "internal": bool(internal), "arguments": arguments}
             b.declared.append(("exchange", exchange, et, bool(durable), bool(auto_delete), arguments))
             b.log("exchange_declare", exchange=exchange, type=et, durable=bool(durable), auto_delete=bool(auto_delete))
-        if callback:
-            callback(_Frame(Exchange_.DeclareOk()))
+        self._confirm(callback, _Frame(Exchange_.DeclareOk()))
 
     def queue_declare(self, queue, passive=False, durable=False, exclusive=False, auto_delete=False,
                       arguments=None, callback=None):
@@ -453,8 +464,7 @@ class Channel(object):
             b.declared.append(("queue", queue, bool(durable), bool(exclusive), bool(auto_delete), arguments))
             b.log("queue_declare", queue=queue, durable=bool(durable), exclusive=bool(exclusive),
                   auto_delete=bool(auto_delete), arguments=arguments)
-        if callback:
-            callback(_Frame(Queue_.DeclareOk(queue=queue, message_count=len(q.messages), consumer_count=len(q.consumers))))
+        self._confirm(callback, _Frame(Queue_.DeclareOk(queue=queue, message_count=len(q.messages), consumer_count=len(q.consumers))))
 
     def queue_bind(self, queue, exchange, routing_key=None, arguments=None, callback=None):
         self._check_open()
@@ -474,8 +484,7 @@ class Channel(object):
             b.bindings.append(ent)
         b.declared.append(("binding", exchange, queue, routing_key, arguments))
         b.log("queue_bind", queue=queue, exchange=exchange, routing_key=routing_key, arguments=arguments)
-        if callback:
-            callback(_Frame(Queue_.BindOk()))
+        self._confirm(callback, _Frame(Queue_.BindOk()))
 
     def basic_qos(self, prefetch_size=0, prefetch_count=0, global_qos=False, callback=None):
         self._check_open()
@@ -503,8 +512,7 @@ class Channel(object):
         b.declared.append(("consume", queue, bool(exclusive), arguments, self.prefetch))
         b.log("basic_consume", queue=queue, exclusive=bool(exclusive), arguments=arguments, consumer=consumer_tag,
               prefetch=self.prefetch, connection=self.connection.name)
-        if callback:
-            callback(_Frame(_Method(consumer_tag=consumer_tag)))
+        self._confirm(callback, _Frame(_Method(consumer_tag=consumer_tag)))
         return consumer_tag
 
     # -- publish / ack ---------------------------------------------------------------------------
@@ -600,6 +608,7 @@ class _ConnBase(object):
         self.timers = []
         self.pending_calls = []     # threadsafe callbacks waiting for the loop: (callable, enq_step)
         self._on_close = []
+        self.defer_confirms = bool(getattr(self.broker, "defer_confirms_for_new_connections", False))
         self.broker.connections.append(self)
 
     def _new_channel(self):
